@@ -378,6 +378,23 @@ func run(c *rig.Ctx) {
 			w.write(a, v)
 			w.check(a, fmt.Sprintf("%d cycles after LCD-on / timer start (LCD switched off first: %v): write %02X to %04X", off, lcdOffFirst, v, a))
 		}
+		// stopping the timer at this very offset (possibly in the middle of an overflow/reload)
+		// leaves TIMA and TMA as plain latches from then on
+		w.m.Mem.Write(0xff07, 0x00)
+		w.ref.tac = 0x00
+		// (the stop itself may still count one falling edge, which may overflow TIMA, and the
+		// overflow's two reload cycles still run: four cycles settle all of it)
+		w.tick(4)
+		for k := 0; k < 3; k++ {
+			v := r.U8()
+			w.m.Mem.Write(0xff05, v)
+			w.tick(k)
+			if got := w.m.Mem.Read(0xff05); got != v {
+				c.Violate("readback-io-FF05-timer-stopped", fmt.Sprintf("timer stopped %d cycles after it was started with TIMA=FE: TIMA written %02X reads %02X %d cycles later", off, v, got, k), nil)
+				break
+			}
+			c.Count("tima_readbacks_timer_stopped", 1)
+		}
 		if lcdOffFirst {
 			// VRAM and OAM are plain memory once the LCD is off, whenever it was switched off
 			for k := 0; k < 8; k++ {
